@@ -369,7 +369,10 @@ func addMaybeNamed(s *scope, name string, obj pyObject, anon func(core.BuildInpu
 		}
 	} else if d, ok := asDict(obj); ok {
 		s.Assert(named != nil, "%s cannot be given as a dict", name)
-		for k, v := range d {
+		// Go through the groups in sorted order, not map order: this is the order in which the
+		// target's dependencies are recorded, and parts of the source hash follow that order.
+		for _, k := range d.Keys() {
+			v := d[k]
 			if v != None {
 				if l, ok := asList(v); ok {
 					for _, li := range l {
